@@ -150,6 +150,20 @@ def dom_values(kind, n, a, b):
     return [vals[(a + b * i + (i * i) // 3) % len(vals)] for i in range(n)]
 
 
+def random_eqn(r):
+    """1-3 operands with 0-3 distinct letters each in any order (a permuted 3-d operand is not its own inverse
+    permutation), output = any subset of the letters in any order."""
+    letters = "abcd"
+    nops = r.choice([1, 2, 2, 3])
+    specs = []
+    for _ in range(nops):
+        k = r.choice([0, 1, 2, 2, 3, 3])
+        specs.append("".join(r.sample(letters, k)))
+    used = sorted(set("".join(specs)))
+    out = r.sample(used, r.randint(0, len(used))) if used else []
+    return ",".join(specs) + "->" + "".join(out)
+
+
 def numeric_case(seed):
     import random
 
@@ -157,7 +171,7 @@ def numeric_case(seed):
     fam = r.choice(["unary", "binary", "binary", "logaddexp", "logsumexp", "einsum_log", "einsum_map", "safe"])
     return dict(family=fam, op=r.choice(sorted(UNARY_OPS)) if fam == "unary" else r.choice(sorted(BINARY_OPS)),
                 shape1=r.choice(SHAPES), shape2=r.choice(SHAPES), a=r.randrange(9973), b=r.randrange(1, 97), swap=r.random() < 0.5,
-                edge=r.random() < 0.5, eqn=r.choice(["ab,bc->ac", "a,ab->a", "a,ab->b", "ab,bc->abc", "ab->", "ab->b", "a,a->a", "ab,b->a", "abc,c->ab", ",a->a", "a,b->ab", "ab,ab->"]),
+                edge=r.random() < 0.5, eqn=r.choice(["ab,bc->ac", "a,ab->a", "a,ab->b", "ab,bc->abc", "ab->", "ab->b", "a,a->a", "ab,b->a", "abc,c->ab", ",a->a", "a,b->ab", "ab,ab->"]) if r.random() < 0.3 else random_eqn(r),
                 safeop=r.choice(["safesub", "safediv", "reciprocal"]))
 
 
@@ -301,6 +315,15 @@ class C15(Prop):
                         raise Violation("logaddexp-limit|" + form, f"logaddexp({x0!r}, {y0!r}) [{form}] = {np.asarray(g).tolist()} exact {float(w0)!r}")
                 if not close(forms["array,array"], want):
                     raise Violation("logaddexp-limit|array", f"logaddexp({x.tolist()}, {y.tolist()}) = {np.asarray(forms['array,array']).tolist()} exact {want.tolist()}")
+                # the limits themselves, in every operand form: both operands the unit -inf, one of them, large values
+                ninf = float("-inf")
+                for px, py in [(ninf, ninf), (ninf, 0.5), (0.5, ninf), (700.0, 700.0), (-745.0, ninf), (ninf, -1e308), (1e308, ninf)]:
+                    w_ = np.logaddexp(px, py)
+                    for form, g in {"scalar,scalar": ops.logaddexp(px, py), "scalar,array": ops.logaddexp(px, np.asarray([py, py])), "array,scalar": ops.logaddexp(np.asarray([px, px]), py),
+                                    "0d,0d": ops.logaddexp(np.asarray(px), np.asarray(py)), "array,array": ops.logaddexp(np.asarray([px, 0.25]), np.asarray([py, ninf]))}.items():
+                        got_ = np.asarray(g, dtype=float).reshape(-1)[0]
+                        if not close(got_, w_):
+                            raise Violation("logaddexp-limit|" + form, f"logaddexp({px!r}, {py!r}) [{form}] = {float(got_)!r} exact {float(w_)!r}")
             elif fam == "logsumexp":
                 shape = s1 if s1 else (3,)
                 n = int(np.prod(shape))
